@@ -17,7 +17,7 @@ Definition text (i : item) : list Z :=
 Definition sp (b : bool) : list Z := if b then [32] else [].
 
 Definition id_hazard (st : pst) : bool :=
-  is_id_part (lastc st) || (match mk st with MRe => true | _ => false end).
+  is_id_part (lastc st) || (match mk st with MRe => true | _ => false end) || esc st.
 Definition op_hazard (st : pst) (o : op) : bool :=
   match mk st with MOp prev => space_rule prev o st | _ => false end.
 
@@ -48,23 +48,23 @@ Lemma seq_fst (a b : act) st : fst ((a ;; b) st) = fst (b (fst (a st))).
 Proof. unfold seq. destruct (a st) as [s1 o1]. simpl. destruct (b s1). reflexivity. Qed.
 Lemma pr_snd t st : snd (pr t st) = t.
 Proof. destruct t; reflexivity. Qed.
-Lemma pr_fst t st : t <> [] -> fst (pr t st) = mkPst (last t 0) (last (removelast t) (lastc st)) MNone.
+Lemma pr_fst t st : t <> [] -> fst (pr t st) = mkPst (last t 0) (last (removelast t) (lastc st)) MNone (ends_esc t).
 Proof. destruct t; [congruence | reflexivity]. Qed.
 Lemma psbi_snd st : snd (printSpaceBeforeIdentifier st) = sp (id_hazard st).
-Proof. unfold printSpaceBeforeIdentifier, id_hazard. destruct (_ || _); reflexivity. Qed.
-Lemma psbi_fst st : fst (printSpaceBeforeIdentifier st) = if id_hazard st then mkPst 32 (lastc st) MNone else st.
-Proof. unfold printSpaceBeforeIdentifier, id_hazard. destruct (_ || _); reflexivity. Qed.
+Proof. unfold printSpaceBeforeIdentifier, id_hazard. destruct (is_id_part (lastc st) || _ || esc st); reflexivity. Qed.
+Lemma psbi_fst st : fst (printSpaceBeforeIdentifier st) = if id_hazard st then mkPst 32 (lastc st) MNone false else st.
+Proof. unfold printSpaceBeforeIdentifier, id_hazard. destruct (is_id_part (lastc st) || _ || esc st); reflexivity. Qed.
 Lemma psbo_snd o st : snd (printSpaceBeforeOperator o st) = sp (op_hazard st o).
 Proof. unfold printSpaceBeforeOperator, op_hazard. destruct (mk st); try reflexivity. destruct (space_rule _ _ _); reflexivity. Qed.
-Lemma psbo_fst o st : fst (printSpaceBeforeOperator o st) = if op_hazard st o then mkPst 32 (lastc st) MNone else st.
+Lemma psbo_fst o st : fst (printSpaceBeforeOperator o st) = if op_hazard st o then mkPst 32 (lastc st) MNone false else st.
 Proof. unfold printSpaceBeforeOperator, op_hazard. destruct (mk st); try reflexivity. destruct (space_rule _ _ _); reflexivity. Qed.
 Lemma ps_snd mw st : snd (printSpace mw st) = sp (negb mw).
 Proof. destruct mw; reflexivity. Qed.
-Lemma ps_fst mw st : fst (printSpace mw st) = if mw then st else mkPst 32 (lastc st) MNone.
+Lemma ps_fst mw st : fst (printSpace mw st) = if mw then st else mkPst 32 (lastc st) MNone false.
 Proof. destruct mw; reflexivity. Qed.
 
-Lemma id_hazard_sp l2 : id_hazard (mkPst 32 l2 MNone) = false. Proof. reflexivity. Qed.
-Lemma op_hazard_sp l2 o : op_hazard (mkPst 32 l2 MNone) o = false. Proof. reflexivity. Qed.
+Lemma id_hazard_sp l2 : id_hazard (mkPst 32 l2 MNone false) = false. Proof. reflexivity. Qed.
+Lemma op_hazard_sp l2 o : op_hazard (mkPst 32 l2 MNone false) o = false. Proof. reflexivity. Qed.
 
 Lemma op_text_nonempty o : op_text o <> [].
 Proof. destruct o; discriminate. Qed.
@@ -102,7 +102,7 @@ Definition natural_mark (i : item) : mark :=
   | _ => MNone
   end.
 
-Lemma set_mark_fst m st : fst (set_mark m st) = mkPst (lastc st) (last2 st) m.
+Lemma set_mark_fst m st : fst (set_mark m st) = mkPst (lastc st) (last2 st) m (esc st).
 Proof. reflexivity. Qed.
 
 Lemma last_cons_ne {A} (x : A) l d : l <> [] -> last (x :: l) d = last l d.
@@ -156,10 +156,13 @@ Proof.
 Qed.
 
 (* ---- well-formed items and grammatical adjacency ---- *)
-Definition word_ok (s : list Z) : Prop := id_shape s /\ regex_after_word s = false.
+(* identifiers: ASCII, or ASCII followed by one "\u{HEX}" escape (an astral character under the
+   ASCII-only charset); never a word after which a regular expression could start *)
+Definition word_ok (s : list Z) : Prop := word_shape s /\ regex_after_word s = false.
 Definition item_ok (i : item) : Prop :=
   match i with
-  | IId s | IDot s => word_ok s
+  | IId s => word_ok s
+  | IDot s => id_shape s /\ regex_after_word s = false
   | INum s => num_shape s
   | IRe b f => re_shape b f
   | _ => True
@@ -218,7 +221,7 @@ Definition chk_basic (o : op) : bool :=
     negb (memz 32 (hazard_chars ls (op_text o))) && negb (memz (-1) (hazard_chars ls (op_text o)))
     && negb (memz 40 (hazard_chars ls (op_text o)))
     && forallb (fun h => negb (id_part h)) (hazard_chars ls (op_text o))) [true; false]
-  && (op_is_keyword o || (negb (id_part (hdz (op_text o))) && negb (hdz (op_text o) =? 46) && negb (hdz (op_text o) =? 32)
+  && (op_is_keyword o || (negb (id_part (hdz (op_text o))) && negb (hdz (op_text o) =? 46) && negb (hdz (op_text o) =? 32) && negb (hdz (op_text o) =? 92)
                           && is_punct (op_text o) && negb (zlist_eqb (op_text o) (zs "?."))))
   && (negb (op_is_keyword o) || (id_part (last (op_text o) 0) && id_start (hdz (op_text o))
                                  && forallb id_part (op_text o) && regex_after_word (op_text o))).
@@ -240,22 +243,22 @@ Proof. destruct ls; vm_compute; split; reflexivity. Qed.
 (* operator followed by a prefix operator: when the printer inserts no space,
    the first character of the second is no hazard for the first, with the one
    exception "<" "!" (the HTML comment opener "<!--" needs two more characters) *)
-Definition st_abs (lc : Z) (b60 : bool) (m : mark) : pst := mkPst lc (if b60 then 60 else 0) m.
+Definition st_abs (lc : Z) (b60 : bool) (m : mark) (e : bool) : pst := mkPst lc (if b60 then 60 else 0) m e.
 Definition chk_opop (o o' : op) : bool :=
-  forallb (fun mw => forallb (fun ls => forallb (fun b60 =>
+  forallb (fun mw => forallb (fun ls => forallb (fun b60 => forallb (fun e =>
     implb (nonkw o && nonkw o' && negb (is_post (IOp o)) && adj (IOp o) (IOp o') && negb (post_sp mw (IOp o))
-           && negb (pre_sp mw (st_abs (last (op_text o) 0) b60 (MOp o)) (IOp o')))
+           && negb (pre_sp mw (st_abs (last (op_text o) 0) b60 (MOp o) e) (IOp o')))
           ((op_eqb o BLt && op_eqb o' UNot) || negb (memz (hdz (op_text o')) (hazard_chars ls (op_text o)))))
-    [true; false]) [true; false]) [true; false].
+    [true; false]) [true; false]) [true; false]) [true; false].
 Lemma chk_opop_all : forall_ops (fun o => forall_ops (chk_opop o)) = true.
 Proof. vm_compute. reflexivity. Qed.
 
 Lemma pre_sp_abs mw st i :
-  pre_sp mw st i = pre_sp mw (st_abs (lastc st) (last2 st =? 60) (mk st)) i.
+  pre_sp mw st i = pre_sp mw (st_abs (lastc st) (last2 st =? 60) (mk st) (esc st)) i.
 Proof.
-  assert (E : forall p n, space_rule p n st = space_rule p n (st_abs (lastc st) (last2 st =? 60) (mk st))).
+  assert (E : forall p n, space_rule p n st = space_rule p n (st_abs (lastc st) (last2 st =? 60) (mk st) (esc st))).
   { intros p n. unfold space_rule, st_abs. simpl last2. destruct (last2 st =? 60); reflexivity. }
-  destruct i; simpl; try reflexivity; unfold op_hazard, id_hazard; simpl mk; simpl lastc;
+  destruct i; simpl; try reflexivity; unfold op_hazard, id_hazard; simpl mk; simpl lastc; simpl esc;
     destruct (mk st); try reflexivity; rewrite <- ?E; reflexivity.
 Qed.
 
@@ -266,7 +269,7 @@ Lemma op_facts o :
               /\ memz 40 (hazard_chars ls (op_text o)) = false
               /\ forallb (fun h => negb (id_part h)) (hazard_chars ls (op_text o)) = true) /\
   (op_is_keyword o = false ->
-     id_part (hdz (op_text o)) = false /\ hdz (op_text o) <> 46 /\ hdz (op_text o) <> 32
+     id_part (hdz (op_text o)) = false /\ hdz (op_text o) <> 46 /\ hdz (op_text o) <> 32 /\ hdz (op_text o) <> 92
      /\ is_punct (op_text o) = true /\ zlist_eqb (op_text o) (zs "?.") = false) /\
   (op_is_keyword o = true ->
      id_part (last (op_text o) 0) = true /\ id_start (hdz (op_text o)) = true
@@ -279,6 +282,7 @@ Proof.
     repeat split; try (apply negb_true_iff; assumption); try assumption.
     + match goal with H : negb (_ =? 46) = true |- _ => apply negb_true_iff in H; apply Z.eqb_neq in H; exact H end.
     + match goal with H : negb (_ =? 32) = true |- _ => apply negb_true_iff in H; apply Z.eqb_neq in H; exact H end.
+    + match goal with H : negb (_ =? 92) = true |- _ => apply negb_true_iff in H; apply Z.eqb_neq in H; exact H end.
   - intro Ew. match goal with H : negb (op_is_keyword o) || _ = true |- _ => rewrite Ew in H; simpl in H end. split_andb.
     repeat split; assumption.
 Qed.
@@ -291,7 +295,7 @@ Definition next_hd (mw : bool) (st' : pst) (post : bool) (r : list item) : Z :=
 Lemma text_ok i : item_ok i -> text i <> [] /\ hdz (text i) <> 32.
 Proof.
   destruct i as [s|s|b f|o|s| |]; simpl; intro H.
-  - destruct H as [[Hne [Hs _]] _]. split; [exact Hne|]. apply id_start_facts in Hs. tauto.
+  - destruct H as [Hw _]. destruct (word_shape_hd s Hw) as [Hne Hs]. split; [exact Hne|]. apply id_start_facts in Hs. tauto.
   - destruct H as [Hne Hall]. split; [exact Hne|]. destruct s as [|c s']; [congruence|]. simpl in *.
     apply andb_true_iff in Hall as [Hc _]. apply digit_facts in Hc. unfold id_part, id_start, digit in Hc. lia.
   - split; [discriminate | lia].
@@ -316,9 +320,9 @@ Qed.
 (* what the follower must not be, per item *)
 Definition need (ls : bool) (i : item) (c : Z) : bool :=
   match i with
-  | IId _ | IDot _ | IRe _ _ => negb (id_part c)
+  | IId _ | IDot _ | IRe _ _ => negb (id_part c) && negb (c =? 92)
   | INum _ => negb (id_part c) && negb (c =? 46)
-  | IOp o => if op_is_keyword o then negb (id_part c) else negb (memz c (hazard_chars ls (op_text o)))
+  | IOp o => if op_is_keyword o then negb (id_part c) && negb (c =? 92) else negb (memz c (hazard_chars ls (op_text o)))
   | IOpen => negb (memz c (hazard_chars ls [40]))
   | IClose => negb (memz c (hazard_chars ls [41]))
   end.
@@ -344,6 +348,35 @@ Proof.
   apply memz_In in E. rewrite forallb_forall in C. specialize (C c E). rewrite Hc in C. discriminate.
 Qed.
 
+Lemma ends_esc_seq pre hex : hex <> [] -> forallb hexd hex = true -> ends_esc (pre ++ esc_seq hex) = true.
+Proof.
+  intros Hne Hh. unfold ends_esc, esc_seq.
+  rewrite !rev_app_distr. simpl rev. rewrite <- !app_assoc. simpl app.
+  change (125 =? 125) with true. cbv iota.
+  assert (Htw : forall a rest, forallb is_hex a = true -> (forall c r, rest = c :: r -> is_hex c = false) ->
+                               take_while is_hex (a ++ rest) = (a, rest)).
+  { induction a as [|x a IH]; intros rest Ha Hr; simpl in *.
+    - destruct rest as [|c r]; [reflexivity|]. simpl. rewrite (Hr c r eq_refl). reflexivity.
+    - apply andb_true_iff in Ha as [Hx Ha]. rewrite Hx, (IH rest Ha Hr). reflexivity. }
+  rewrite Htw.
+  - destruct (rev hex) eqn:Er; [apply (f_equal (@List.length Z)) in Er; rewrite rev_length in Er; destruct hex; [congruence | discriminate]|].
+    reflexivity.
+  - rewrite forallb_forall in *. intros c Hin. apply in_rev in Hin. apply (Hh c Hin).
+  - intros c r E. inversion E; subst. reflexivity.
+Qed.
+
+Lemma word_last_gen s : word_shape s -> (is_id_part (last s 0) = true \/ ends_esc s = true) /\ id_part (hdz s) = true.
+Proof.
+  intro Hw. destruct (word_shape_hd s Hw) as [Hne Hs]. split; [|unfold id_part; rewrite Hs; reflexivity].
+  destruct Hw as [[_ [_ Hall]] | (pre & hex & E & _ & Hhne & Hh)].
+  - left. rewrite forallb_forall in Hall. apply Hall. apply (@exists_last _ s) in Hne as [l' [a E]].
+    rewrite E, last_last. apply in_or_app. right. left. reflexivity.
+  - right. subst s. apply ends_esc_seq; assumption.
+Qed.
+
+Lemma after_esc_id mw st s : s <> [] -> esc (after mw st (IId s)) = ends_esc s.
+Proof. intro Hne. unfold after, emit. rewrite seq_fst, pr_fst by exact Hne. reflexivity. Qed.
+
 Lemma word_last s : id_shape s -> is_id_part (last s 0) = true /\ id_part (hdz s) = true.
 Proof.
   intros [Hne [Hs Hall]]. split.
@@ -366,16 +399,17 @@ Proof. destruct o; simpl; intro H; try discriminate; reflexivity. Qed.
 Lemma op_eqb_UNot o : op_eqb o UNot = true -> o = UNot.
 Proof. destruct o; simpl; intro H; try discriminate; reflexivity. Qed.
 
-Lemma opop_use mw ls b60 o o' :
+Lemma opop_use mw ls b60 e o o' :
   nonkw o && nonkw o' && negb (is_post (IOp o)) && adj (IOp o) (IOp o') && negb (post_sp mw (IOp o))
-    && negb (pre_sp mw (st_abs (last (op_text o) 0) b60 (MOp o)) (IOp o')) = true ->
+    && negb (pre_sp mw (st_abs (last (op_text o) 0) b60 (MOp o) e) (IOp o')) = true ->
   (o = BLt /\ o' = UNot) \/ memz (hdz (op_text o')) (hazard_chars ls (op_text o)) = false.
 Proof.
   intro Hp. pose proof (forall_ops_sound _ (forall_ops_sound _ chk_opop_all o) o') as C.
   unfold chk_opop in C. rewrite forallb_forall in C.
   assert (Hb : forall b : bool, In b [true; false]) by (intros [|]; simpl; tauto).
   specialize (C mw (Hb mw)). rewrite forallb_forall in C. specialize (C ls (Hb ls)).
-  rewrite forallb_forall in C. specialize (C b60 (Hb b60)). rewrite Hp in C. simpl in C.
+  rewrite forallb_forall in C. specialize (C b60 (Hb b60)).
+  rewrite forallb_forall in C. specialize (C e (Hb e)). rewrite Hp in C. simpl in C.
   apply orb_true_iff in C as [C|C].
   - left. apply andb_true_iff in C as [C1 C2]. split; [apply op_eqb_BLt | apply op_eqb_UNot]; assumption.
   - right. apply negb_true_iff. exact C.
@@ -404,30 +438,36 @@ Proof.
   assert (Hj : item_ok j) by (inversion Hr; assumption).
   pose proof Epre as Epre0.
   rewrite pre_sp_abs, Hlc, Hmk in Epre. set (b60 := last2 (after mw st i) =? 60) in Epre. clearbody b60.
+  pose proof (eq_refl (esc (after mw st i))) as Hesc. set (e := esc (after mw st i)) in Epre, Hesc at 1. clearbody e.
   (* items that end an operand and glue like identifiers: the follower is an operator, ".", or ")" *)
   assert (OPER : forall (lc : Z) (m : mark),
             ends_operand i = true -> is_post i = false ->
-            is_id_part lc = true \/ m = MRe ->
-            pre_sp mw (st_abs lc b60 m) j = false ->
-            negb (id_part (hdz (text j))) = true /\ (m = MNum -> (hdz (text j) =? 46) = false)).
+            is_id_part lc = true \/ m = MRe \/ e = true ->
+            pre_sp mw (st_abs lc b60 m e) j = false ->
+            negb (id_part (hdz (text j))) && negb (hdz (text j) =? 92) = true /\ (m = MNum -> (hdz (text j) =? 46) = false)).
   { intros lc m He Hnp Hhaz Hpre. unfold adj in Hadj. rewrite He in Hadj.
-    assert (Hid : id_hazard (st_abs lc b60 m) = true).
-    { unfold id_hazard, st_abs. simpl. destruct Hhaz as [Hh|Hh]; [rewrite Hh; reflexivity | subst m; apply orb_true_r]. }
+    assert (Hid : id_hazard (st_abs lc b60 m e) = true).
+    { unfold id_hazard, st_abs. simpl. destruct Hhaz as [Hh|[Hh|Hh]]; [rewrite Hh; reflexivity | subst m; rewrite orb_true_r; reflexivity | rewrite Hh; apply orb_true_r]. }
     destruct j as [s'|s'|b' f'|o'|s'| |]; try discriminate.
     - destruct (op_facts o') as (_ & Fn & Fk).
       destruct (op_is_keyword o') eqn:Ew'.
       + exfalso. unfold pre_sp in Hpre. rewrite Ew', Hid in Hpre.
         destruct (op_kind o'); try discriminate. destruct (op_eqb o' BComma); try discriminate. destruct mw; discriminate.
-      + destruct (Fn eq_refl) as (A & B & _). simpl text. rewrite A. split; [reflexivity|]. intros _. apply Z.eqb_neq. exact B.
+      + destruct (Fn eq_refl) as (A & B & _ & B92 & _). simpl text. rewrite A. apply Z.eqb_neq in B92. rewrite B92.
+        split; [reflexivity|]. intros _. apply Z.eqb_neq. exact B.
     - simpl. split; [reflexivity|]. intro Hm. subst m. unfold pre_sp, st_abs in Hpre. simpl in Hpre. discriminate.
     - simpl. split; [reflexivity|]. intros _. reflexivity. }
   destruct i as [s|s|b f|o|s| |].
-  - (* IId *) left. destruct Hi as [Hs _]. destruct (word_last s Hs) as [Hl _].
-    destruct (OPER (last s 0) MNone eq_refl eq_refl (or_introl Hl) Epre) as [A _]. exact A.
+  - (* IId *) left. destruct Hi as [Hs _]. destruct (word_last_gen s Hs) as [Hl _].
+    assert (Hhz : is_id_part (last s 0) = true \/ MNone = MRe \/ e = true).
+    { destruct Hl as [Hl|Hl]; [left; exact Hl | right; right].
+      rewrite Hesc, after_esc_id; [exact Hl | destruct (word_shape_hd s Hs); assumption]. }
+    destruct (OPER (last s 0) MNone eq_refl eq_refl Hhz Epre) as [A _]. exact A.
   - (* INum *) left. destruct (num_last s Hi) as [Hl _].
-    destruct (OPER (last s 0) MNum eq_refl eq_refl (or_introl Hl) Epre) as [A B]. simpl need. rewrite A, (B eq_refl). reflexivity.
+    destruct (OPER (last s 0) MNum eq_refl eq_refl (or_introl Hl) Epre) as [A B]. simpl need.
+    apply andb_true_iff in A as [A _]. rewrite A, (B eq_refl). reflexivity.
   - (* IRe *) left.
-    destruct (OPER (last (text (IRe b f)) 0) MRe eq_refl eq_refl (or_intror eq_refl) Epre) as [A _]. exact A.
+    destruct (OPER (last (text (IRe b f)) 0) MRe eq_refl eq_refl (or_intror (or_introl eq_refl)) Epre) as [A _]. exact A.
   - (* IOp *)
     destruct (op_facts o) as (Fh & Fn & Fk).
     destruct (op_is_keyword o) eqn:Ew.
@@ -435,7 +475,7 @@ Proof.
       destruct (Fk eq_refl) as (Hl & _). destruct (kw_not_post o Ew) as [Hnp Hnu].
       unfold adj in Hadj. change (ends_operand (IOp o)) with (is_post (IOp o)) in Hadj. rewrite Hnp in Hadj. apply andb_true_iff in Hadj as [Hso _].
       simpl natural_mark in Epre. rewrite Ew in Epre.
-      assert (Hid : id_hazard (st_abs (last (text (IOp o)) 0) b60 MNone) = true).
+      assert (Hid : id_hazard (st_abs (last (text (IOp o)) 0) b60 MNone e) = true).
       { unfold id_hazard, st_abs. simpl lastc. simpl text. rewrite id_part_same, Hl. reflexivity. }
       destruct j as [s'|s'|b' f'|o'|s'| |]; try discriminate.
       * exfalso. unfold pre_sp in Epre. rewrite Hid in Epre. discriminate.
@@ -445,7 +485,7 @@ Proof.
         destruct (op_kind o') eqn:Ek'; try discriminate.
         destruct (op_is_keyword o') eqn:Ew'.
         -- exfalso. unfold pre_sp in Epre. rewrite Ek', Ew', Hid in Epre. discriminate.
-        -- destruct (Fn' eq_refl) as (A & _). simpl text. rewrite A. reflexivity.
+        -- destruct (Fn' eq_refl) as (A & _ & _ & B92 & _). simpl text. rewrite A. apply Z.eqb_neq in B92. rewrite B92. reflexivity.
       * reflexivity.
     + (* punctuator operator *)
       simpl need. rewrite Ew. simpl natural_mark in Epre. rewrite Ew in Epre. simpl text in Epre.
@@ -457,7 +497,7 @@ Proof.
         rewrite Hls. rewrite post_hazards; [reflexivity|]. simpl in Epost. destruct (op_kind o); try discriminate. reflexivity.
       * unfold adj in Hadj. change (ends_operand (IOp o)) with (is_post (IOp o)) in Hadj. rewrite Epost in Hadj. apply andb_true_iff in Hadj as [Hso Hupd].
         destruct j as [s'|s'|b' f'|o'|s'| |]; try discriminate.
-        -- left. destruct Hj as [Hs' _]. destruct (word_last s' Hs') as [_ Hh]. simpl text. rewrite (hazard_not_id ls o _ Hh). reflexivity.
+        -- left. destruct Hj as [Hs' _]. destruct (word_last_gen s' Hs') as [_ Hh]. simpl text. rewrite (hazard_not_id ls o _ Hh). reflexivity.
         -- left. destruct (num_last s' Hj) as [_ Hh]. simpl text. rewrite (hazard_not_id ls o _ Hh). reflexivity.
         -- left. simpl text. simpl hdz.
            pose proof (forall_ops_sound _ chk_re_all o) as C. unfold chk_re in C. simpl forallb in C. split_andb.
@@ -469,10 +509,10 @@ Proof.
            ++ left. destruct (Fk' eq_refl) as (_ & Hs' & _). simpl text.
               rewrite (hazard_not_id ls o (hdz (op_text o'))); [reflexivity|]. unfold id_part. rewrite Hs'. reflexivity.
            ++ assert (Hp : nonkw o && nonkw o' && negb (is_post (IOp o)) && adj (IOp o) (IOp o') && negb (post_sp mw (IOp o))
-                             && negb (pre_sp mw (st_abs (last (op_text o) 0) b60 (MOp o)) (IOp o')) = true).
+                             && negb (pre_sp mw (st_abs (last (op_text o) 0) b60 (MOp o) e) (IOp o')) = true).
               { unfold nonkw. rewrite Ew, Ew', Epost, Ep, Epre. simpl.
                 unfold adj. change (ends_operand (IOp o)) with (is_post (IOp o)). rewrite Epost. simpl starts_operand. rewrite Ek'. change (is_update_pre (IOp o)) with (match o with UPreDec | UPreInc => true | _ => false end) in Hupd. simpl. rewrite Hupd. reflexivity. }
-              destruct (opop_use mw ls b60 o o' Hp) as [[E1 E2]|E].
+              destruct (opop_use mw ls b60 e o o' Hp) as [[E1 E2]|E].
               ** right. subst o o'. unfold special. split; [reflexivity|]. split; [exact Ep|].
                  exists r'. split; [reflexivity | exact Epre0].
               ** left. simpl text. rewrite E. reflexivity.
